@@ -1,6 +1,6 @@
 """Every run proves that the zero-expected-count rule families can fire: the positive
 fixtures (fixtures/positive) must be reported, their guarded twins must not."""
-from .families import check_casts, check_panics, check_allocs, check_recursion, guard_flow, check_self_compare, bodies_of_fn
+from .families import check_casts, check_panics, check_allocs, check_recursion, guard_flow, check_self_compare, bodies_of_fn, check_error_swallow
 from .core import callee_names
 
 
@@ -61,6 +61,15 @@ def run(ctx):
             ctx.ok('SELFTEST', 'REC:' + path, 'as expected')
         else:
             ctx.bad('SELFTEST', 'REC:' + path, 'REC gave %s, expected %s' % (sorted(got), want), key='ENGINE:selftest:REC:%s' % path)
+    # ERR: a swallowed error of a function of the same workspace
+    for path, want in (('posfix::bad_swallow', 'bad'), ('posfix::good_swallow', 'ok')):
+        pr = _Probe()
+        check_error_swallow(pr, PX, 'x', (path,), workspace=('posfix::',))
+        got = {v for v, _ in pr.v}
+        if (want == 'bad' and 'bad' in got) or (want == 'ok' and got == {'ok'}):
+            ctx.ok('SELFTEST', 'ERR:' + path, 'as expected')
+        else:
+            ctx.bad('SELFTEST', 'ERR:' + path, 'ERR gave %s, expected %s' % (sorted(got), want), key='ENGINE:selftest:ERR:%s' % path)
     # SELFCMP (the comparison sits in the then_with closure: the function's closures are scanned with it)
     for path, want in (('posfix::bad_selfcmp', 'bad'), ('posfix::good_selfcmp', 'ok')):
         pr = _Probe()
